@@ -342,6 +342,15 @@ def gen_cases(rng, tier):
         rows = [[r.choice(["alpha", "beta", "gamma7", "x.y", "42", "hello world", ""]) + str(r.randint(0, 99)) for _ in range(ncol)]
                 for _ in range(r.randint(2, 4))]
         cases.append({"kind": "read", "d": d, "header": header, "rows": rows})
+    # header-less files read with `fields=`: every line is a record - also a first line that looks unlike the others
+    for _ in range(12 * n):
+        ncol = r.randint(2, 4)
+        header = r.sample([f_ for f_ in FIELD_POOL if f_ not in ("class", "from", "in")], ncol)
+        rows = [[str(r.randint(1, 999))] + [r.choice(["alice", "bob", "Amsterdam", "x y", "q7"]) for _ in range(ncol - 1)]
+                for _ in range(r.randint(3, 8))]
+        if r.chance(60):
+            rows[0][0] = r.choice(["n/a", "unknown", "id", "-"])
+        cases.append({"kind": "read", "d": ",", "header": header, "rows": rows, "headerless": True})
     return cases
 
 
@@ -686,7 +695,8 @@ def _run_read(case):
         path = os.path.join(tmp, "in.csv")
         with open(path, "w", newline="", encoding="utf-8") as fp:
             w = csv.writer(fp, delimiter=case["d"])
-            w.writerow(case["header"])
+            if not case.get("headerless"):
+                w.writerow(case["header"])
             for row in case["rows"]:
                 w.writerow(row)
         text = open(path, encoding="utf-8", newline="").read()
@@ -697,7 +707,7 @@ def _run_read(case):
         except csv.Error:
             obs["sniffed"] = None
         try:
-            rd = CsvfileReader(path)
+            rd = CsvfileReader(path, fields=",".join(case["header"])) if case.get("headerless") else CsvfileReader(path)
             try:
                 obs["fields"] = [n for _, n in rd.desc.get_field_tuples()]
                 obs["records"] = [[None if getattr(rec, n) is None else [type(getattr(rec, n)).__name__,
@@ -950,6 +960,8 @@ def model_op(case, obs):
         return {"op": "text_out", "recs": obs["view"], "spec": obs["spec"] if obs["spec"] else None}
     if k == "read":
         if obs.get("sniffed") is None or obs["sniffed"][0] != case["d"] or obs["sniffed"][3] or "read" in obs:
+            return None
+        if case.get("headerless"):
             return None
         if any(normalize_fieldname_spec(h) != h for h in case["header"]):
             return None
